@@ -8,7 +8,8 @@ Vocabulary (definitions in `Model.lean` / `Proofs.lean`):
                other than split into literal words (unquoted character outside the inert set,
                `$`/backquote in double quotes, unterminated quote, NUL);
   `crtSplit v` = the MS C runtime `parse_cmdline` rules, `v` ∈ {documented, legacy, modern};
-  `renderRange (lo, hi)` = `lo` if `lo = hi` else `lo-hi` (decimal);
+  `renderRange (lo, hi)` = `lo` if `lo = hi` else `lo-hi` (decimal); `renderRangeD rd` = the same with
+               the range delimiter `rd`; `DelimOK d rd` = `d ≠ rd`, neither a digit nor a blank;
   `Canon rs`  = every run has `lo ≤ hi`, and each later run starts at least 2 above every
                earlier run's end (strictly increasing, not mergeable = maximal ranges);
   `Covers rs x` = `x` lies in one of the runs.
@@ -54,6 +55,35 @@ theorem esa_sh_roundtrip (args : List Str) (h : NoNul args) :
 theorem esa_cmd_roundtrip (v : CrtVariant) (args : List Str) (h : NoNul args) :
     ∃ t, escapeShellArgs ['c', 'm', 'd'] args = some t ∧ crtSplit v t = args :=
   ⟨args2cmd args, rfl, cmd_roundtrip v args h⟩
+
+/-- `style=None` (or any falsy style) on win32 means `cmd`: the text is then read back by the MS C
+    runtime rules (the non-win32 case is `esa_sh_roundtrip`) -/
+theorem esa_none_win32_roundtrip (v : CrtVariant) (args : List Str) (h : NoNul args) :
+    ∃ t, escapeShellArgs [] args true = some t ∧ escapeShellArgs ['c', 'm', 'd'] args true = some t ∧
+      crtSplit v t = args :=
+  ⟨args2cmd args, rfl, rfl, cmd_roundtrip v args h⟩
+
+/-- an explicit style never looks at the platform, and exactly the styles `sh`, `cmd` and the falsy
+    one are accepted (anything else is ValueError) -/
+theorem esa_platform_only_for_none (style : Str) (hs : style ≠ []) (args : List Str) (w : Bool) :
+    escapeShellArgs style args w = escapeShellArgs style args false := by
+  cases style with
+  | nil => exact absurd rfl hs
+  | cons c cs => simp [escapeShellArgs]
+
+theorem esa_valueError_iff (style : Str) (args : List Str) (w : Bool) :
+    escapeShellArgs style args w = none ↔ (style ≠ [] ∧ style ≠ ['s', 'h'] ∧ style ≠ ['c', 'm', 'd']) := by
+  cases style with
+  | nil => cases w <;> simp [escapeShellArgs]
+  | cons c cs =>
+    simp only [escapeShellArgs, List.isEmpty_cons, Bool.false_eq_true, if_false]
+    split
+    · simp_all
+    · split <;> simp_all
+
+example : escapeShellArgs [] ["a b".toList] true = some "\"a b\"".toList := by decide +kernel
+example : escapeShellArgs [] ["a b".toList] false = some "'a b'".toList := by decide +kernel
+example : escapeShellArgs "bogus".toList ["a".toList] true = none := by decide +kernel
 
 /-- consequently both encoders are injective: different argument lists never produce the same text -/
 theorem sh_injective (a b : List Str) (ha : NoNul a) (hb : NoNul b) (h : args2sh a = args2sh b) : a = b := by
@@ -157,6 +187,139 @@ theorem complement_default_end (s : Str) (l : List Nat) (a : Int) (h : parseIntL
 theorem int_ranges_exact (s : Str) (l : List Nat) (h : parseIntList s = some l) :
     ∃ rs, intRanges s = some rs ∧ Canon rs ∧ ∀ x, Covers rs x ↔ x ∈ l :=
   ⟨_, intRanges_of_parse s l h, (runs_isort_spec l).1, (runs_isort_spec l).2⟩
+
+/-! ### the same clauses for arbitrary delimiters
+
+`format_int_list`, `parse_int_list`, `complement_int_list` and `int_ranges_from_int_list` take
+`delim` / `range_delim` parameters.  For every pair of one-character delimiters `d`, `rd` with
+`DelimOK d rd` (different characters, neither a decimal digit nor a blank) all clauses hold
+as for the defaults `,` and `-`; `delim_space` is `sp`. -/
+
+/-- round trip for every admissible delimiter pair, with or without `delim_space` -/
+theorem int_roundtrip_delims (d rd : Char) (ok : DelimOK d rd) (L : List Nat) (sp : Bool) :
+    parseIntList (formatIntList L sp d rd) d rd = some (sortDedup L) := by
+  cases sp with
+  | false => rw [parse_formatD d rd ok, expand_runs_eq]
+  | true => rw [parse_format_spaceD d rd ok, expand_runs_eq]
+
+example : DelimOK ';' ':' := by decide
+example : DelimOK '/' '~' := by decide
+example : ¬ DelimOK ',' ',' := by decide
+example : ¬ DelimOK ' ' '-' := by decide
+example : formatIntList [8, 1, 3, 5, 7, 6, 3, 10, 11, 15] true ';' ':' = "1; 3; 5:8; 10:11; 15".toList := by
+  decide +kernel
+-- the hypothesis is needed: with `delim = range_delim` a range token is cut in two
+example : parseIntList (formatIntList [1, 2, 3] false ',' ',') ',' ',' = some [1, 3] := by decide +kernel
+
+/-- canonical output for every delimiter pair (no hypothesis on the delimiters is needed for this) -/
+theorem format_canonical_delims (d rd : Char) (L : List Nat) (sp : Bool) :
+    ∃ rs, formatIntList L sp d rd = join (if sp then [d, ' '] else [d]) (rs.map (renderRangeD rd)) ∧
+      Canon rs ∧ ∀ x, Covers rs x ↔ x ∈ L := by
+  refine ⟨runs (isort L), ?_, (runs_isort_spec L).1, (runs_isort_spec L).2⟩
+  cases sp with
+  | false => exact format_eqD d rd L
+  | true => exact format_eq_spaceD d rd L
+
+/-- ... and it is THE canonical rendering: any canonical run list covering exactly `L` gives the same text -/
+theorem format_canonical_unique_delims (d rd : Char) (L : List Nat) (sp : Bool) (rs : List (Nat × Nat))
+    (hc : Canon rs) (hm : ∀ x, Covers rs x ↔ x ∈ L) :
+    formatIntList L sp d rd = join (if sp then [d, ' '] else [d]) (rs.map (renderRangeD rd)) := by
+  obtain ⟨rs', h1, h2, h3⟩ := format_canonical_delims d rd L sp
+  rw [h1, canon_unique rs' rs h2 hc (fun x => by rw [h3, hm])]
+
+/-- canonical output also with `delim_space=True` and the default delimiters (`", "` separators) -/
+theorem format_canonical_delim_space (L : List Nat) :
+    ∃ rs, formatIntList L true = join [',', ' '] (rs.map renderRange) ∧ Canon rs ∧ ∀ x, Covers rs x ↔ x ∈ L :=
+  format_canonical_delims ',' '-' L true
+
+/-- every well-formed range string, written with any admissible delimiters (with or without a
+    blank after the delimiter), is read as the sorted list of the integers it denotes -/
+theorem parse_range_string_delims (d rd : Char) (ok : DelimOK d rd) (sp : Bool) (rs : List (Nat × Nat))
+    (h : ∀ r ∈ rs, r.1 ≤ r.2) :
+    ∃ R, parseIntList (join (if sp then [d, ' '] else [d]) (rs.map (renderRangeD rd))) d rd = some R ∧
+      R.Pairwise (· ≤ ·) ∧ ∀ x, x ∈ R ↔ Covers rs x := by
+  refine ⟨isort (expand rs), ?_, isort_sorted _, fun x => by rw [mem_isort, mem_expand]⟩
+  cases sp with
+  | false => exact parse_renderD d rd ok rs h
+  | true => exact parse_render_spaceD d rd ok rs h
+
+/-- `parse` and `format` are mutually inverse on canonical range strings: a canonical string is read
+    as the strictly increasing list of what it covers, and formatting that list gives the string back -/
+theorem format_parse_canonical (d rd : Char) (ok : DelimOK d rd) (rs : List (Nat × Nat)) (hc : Canon rs) :
+    ∃ R, parseIntList (join [d] (rs.map (renderRangeD rd))) d rd = some R ∧ R.Pairwise (· < ·) ∧
+      (∀ x, x ∈ R ↔ Covers rs x) ∧ formatIntList R false d rd = join [d] (rs.map (renderRangeD rd)) := by
+  refine ⟨expand rs, ?_, expand_sorted rs hc, mem_expand rs, ?_⟩
+  · rw [parse_renderD d rd ok rs hc.1, isort_id _ (lt_imp_le_pairwise (expand_sorted rs hc))]
+  · exact format_canonical_unique_delims d rd (expand rs) false rs hc (fun x => (mem_expand rs x).symm)
+
+example : Canon [(0, 0), (2, 4), (9, 9)] := by refine ⟨by decide, ?_⟩; simp
+
+/-- `complement_int_list(s, a, e, delim, range_delim)`: exactly the missing integers of the window,
+    as a canonical range string in the same delimiters -/
+theorem complement_exact_delims (d rd : Char) (ok : DelimOK d rd) (s : Str) (l : List Nat) (a e : Int)
+    (h : parseIntList s d rd = some l) :
+    ∃ t R, complementIntList s a (some e) d rd = some t ∧ parseIntList t d rd = some R ∧
+      R.Pairwise (· < ·) ∧ (∀ x : Nat, x ∈ R ↔ (a ≤ (x : Int) ∧ (x : Int) < e ∧ x ∉ l)) ∧
+      ∃ rs, t = join [d] (rs.map (renderRangeD rd)) ∧ Canon rs := by
+  let M := (List.range e.toNat).filter fun x => !l.contains x && !decide ((x : Int) < a)
+  refine ⟨formatIntList M false d rd, sortDedup M, by simp only [complementIntList, h, M],
+    int_roundtrip_delims d rd ok M false, sortDedup_sorted M, fun x => ?_, runs (isort M),
+    format_eqD d rd M, (runs_isort_spec M).1⟩
+  rw [mem_sortDedup]
+  simp only [M]
+  simp only [List.mem_filter, List.mem_range, Bool.and_eq_true, Bool.not_eq_true',
+    List.contains_eq_mem, decide_eq_false_iff_not]
+  constructor
+  · rintro ⟨h1, h2, h3⟩; exact ⟨by omega, by omega, by simpa using h2⟩
+  · rintro ⟨h1, h2, h3⟩; exact ⟨by omega, by simpa using h3, by omega⟩
+
+example : complementIntList "1;3;5:8".toList 2 (some 11) ';' ':' = some "2;4;9:10".toList := by decide +kernel
+
+/-- `range_end=None` with any delimiters: the window ends just above the largest listed integer -/
+theorem complement_default_end_delims (d rd : Char) (s : Str) (l : List Nat) (a : Int)
+    (h : parseIntList s d rd = some l) :
+    complementIntList s a none d rd =
+      complementIntList s a (some (if l.isEmpty then a else (lmax l : Int) + 1)) d rd := by
+  simp [complementIntList, h]
+
+example : complementIntList "1;3;5:8".toList 0 none ';' ':' = some "0;2;4".toList := by decide +kernel
+
+/-- complementing twice within the same window `[0, e)` gives back the listed integers below `e`
+    (in canonical form): the complement really is "the missing integers" and nothing else -/
+theorem complement_involution (s : Str) (l : List Nat) (e : Int) (h : parseIntList s = some l) :
+    ∃ t t2 R, complementIntList s 0 (some e) = some t ∧ complementIntList t 0 (some e) = some t2 ∧
+      parseIntList t2 = some R ∧ R.Pairwise (· < ·) ∧ ∀ x : Nat, x ∈ R ↔ ((x : Int) < e ∧ x ∈ l) := by
+  obtain ⟨t, R1, h1, h2, -, h4, -⟩ := complement_exact s l 0 e h
+  obtain ⟨t2, R2, g1, g2, g3, g4, -⟩ := complement_exact t R1 0 e h2
+  refine ⟨t, t2, R2, h1, g1, g2, g3, fun x => ?_⟩
+  rw [g4, h4]
+  constructor
+  · rintro ⟨-, hx, hn⟩
+    refine ⟨hx, ?_⟩
+    apply Classical.byContradiction
+    intro hl; exact hn ⟨by omega, hx, hl⟩
+  · rintro ⟨hx, hl⟩
+    exact ⟨by omega, hx, fun hh => hh.2.2 hl⟩
+
+example : complementIntList "0,2,4,9,12-14".toList 0 (some 16) = some "1,3,5-8,10-11,15".toList := by
+  decide +kernel
+
+/-- `int_ranges_from_int_list(s, delim, range_delim)`: the maximal ranges of what `s` denotes, whatever
+    delimiters `s` is read with -/
+theorem int_ranges_exact_delims (d rd : Char) (s : Str) (l : List Nat) (h : parseIntList s d rd = some l) :
+    ∃ rs, intRanges s d rd = some rs ∧ Canon rs ∧ ∀ x, Covers rs x ↔ x ∈ l :=
+  ⟨_, intRanges_of_parseD d rd s l h, (runs_isort_spec l).1, (runs_isort_spec l).2⟩
+
+/-- on `format_int_list` output the tuple of ranges is exactly the run list the text renders -/
+theorem int_ranges_of_format (d rd : Char) (ok : DelimOK d rd) (L : List Nat) (sp : Bool) :
+    ∃ rs, intRanges (formatIntList L sp d rd) d rd = some rs ∧
+      formatIntList L sp d rd = join (if sp then [d, ' '] else [d]) (rs.map (renderRangeD rd)) ∧
+      Canon rs ∧ ∀ x, Covers rs x ↔ x ∈ L := by
+  obtain ⟨rs, h1, h2, h3⟩ := int_ranges_exact_delims d rd _ _ (int_roundtrip_delims d rd ok L sp)
+  refine ⟨rs, h1, ?_, h2, fun x => by rw [h3, mem_sortDedup]⟩
+  exact format_canonical_unique_delims d rd L sp rs h2 (fun x => by rw [h3, mem_sortDedup])
+
+example : intRanges "1; 3; 5:8".toList ';' ':' = some [(1, 1), (3, 3), (5, 8)] := by decide +kernel
 
 example : parseIntList "1,3,5-8,10-11,15".toList = some [1, 3, 5, 6, 7, 8, 10, 11, 15] := by decide +kernel
 example : formatIntList [8, 1, 3, 5, 7, 6, 3, 10, 11, 15] = "1,3,5-8,10-11,15".toList := by decide +kernel
